@@ -3,12 +3,14 @@ independent Python walker (tools/h5spec.py) on the complete bytes of files writt
 
 For every sampled file Coq computes `walk_obs` by vm_compute: acceptance (tolerant / strict), the proved boolean `walk_ok`,
 the visited extents (start, end, kind), the deviation tags and a summary of the tree.  Gate:
-  * same acceptance: the tolerant Coq walk accepts iff the Python walker reports no error; the strict walk accepts iff there is
-    no deviation tag at all;
+  * same acceptance: the tolerant Coq walk accepts iff the Python walker reports no error (a file that a walker rejects is itself
+    the failing input, also when both reject it); the strict walk accepts iff there is no deviation tag at all;
   * same multiset of extents over the kinds both walkers follow (kinds only Python follows are counted as not covered);
   * same set of deviation tags over the tags both know (the others are listed);
   * same tree summary (object header address, path, kind, shape, datatype class/size, layout class, attribute names);
-  * walk_ok == Python's sweep (in bounds, below the end-of-file address, pairwise disjoint) over the same extents.
+  * walk_ok == Python's sweep (in bounds, below the end-of-file address, pairwise disjoint) over the same extents;
+  * the extents the Coq walker visits are in bounds and pairwise disjoint (Coq extents_ok with the end-of-file address left out):
+    a file that fails this is a specification violation by the Coq walker alone.
 A difference is a violation dict like those of c05spec: `nofail=True` unless one of the walkers rejects the file (then the history
 that produced the file is the failing input).
 
@@ -33,6 +35,7 @@ TAGS = dict(c05spec.TAGS, **XTAGS)
 TAGNAME = {v: k for k, v in TAGS.items()}
 # tags raised only inside structures the Coq walker does not follow / by clauses it does not have
 PY_ONLY_TAGS = {"gcol-free-size", "vlen-elem-no-length", "datatype-trailing-bytes", "fheap-iblock-crc32"}
+EXTENT_SWEEP_TAGS = {"btree1-node-truncated", "snod-node-truncated", "sb-eof-stale"}
 OBJKIND = {"group": 1, "dataset": 2, "linkobject": 3}
 LAYOUT = {"compact": 0, "contiguous": 1, "chunked": 2}
 
@@ -53,14 +56,14 @@ def py_summary(res):
         tree.append((a, nd["path"].encode("utf-8", "surrogateescape"), OBJKIND[nd["kind"]], tuple(nd["dims"]) if ds else (),
                      nd["dt"]["cls"] if ds else 0, nd["dt"]["size"] if ds else 0, LAYOUT[nd["layout"]] if ds else 0,
                      tuple(sorted(bytes(n) for n in nd["attrs"]))))
-    return dict(accept=not res["errors"], extents=ext, other=other, tags=tags, tree=sorted(tree), eof=res["sb"].get("eof", 0),
+    return dict(accept=not res["errors"], errors=list(res["errors"][:3]), extents=ext, other=other, tags=tags, tree=sorted(tree), eof=res["sb"].get("eof", 0),
                 version=res["sb"].get("version"), size=res["size"])
 
 
 def parse_obs(l):
     """walk_obs -> dict (see Model/WalkTie.v)"""
     code = l[0]
-    d = dict(accept=bool(code & 1), strict=bool(code & 2), walk_ok=bool(code & 4))
+    d = dict(accept=bool(code & 1), strict=bool(code & 2), walk_ok=bool(code & 4), disjoint=bool(code & 8))
     if not d["accept"]:
         return d
     p = [1]
@@ -150,6 +153,7 @@ def compare(py, cq):
             "accepts" if py["accept"] else "rejects", "accepts" if cq["accept"] else "rejects"), True))
         return out
     if not py["accept"]:
+        out.append(("rejected: both walkers reject the file; Python: %s" % (py["errors"][0][:300] if py["errors"] else "?"), True))
         return out
     if (py["version"], py["eof"]) != (cq["version"], cq["eof"]):
         out.append(("superblock: version/end-of-file address %s (Python) vs %s (Coq)" % ((py["version"], py["eof"]), (cq["version"], cq["eof"])), False))
@@ -158,7 +162,14 @@ def compare(py, cq):
         fmt = lambda c: ", ".join("%s[%d,%d)" % (KINDNAME.get(k, k), s, e) for (s, e, k) in sorted(c.elements())[:4])
         out.append(("extents: only Python visits {%s}; only Coq visits {%s}" % (fmt(a - b), fmt(b - a)), False))
     comparable = {t for t in py["tags"] if t in TAGS and t not in PY_ONLY_TAGS}
+    ctags = set(cq["tags"])
+    if py["other"]:
+        # the clauses that sweep over ALL extents see structures only Python follows (a global heap collection inside the full-capacity
+        # region of a node, beyond the end-of-file address): not comparable on such a file
+        comparable -= EXTENT_SWEEP_TAGS
+        ctags -= {TAGS[t] for t in EXTENT_SWEEP_TAGS}
     pt = {TAGS[t] for t in comparable}
+    cq = dict(cq, tags=ctags)
     if pt != cq["tags"]:
         out.append(("deviation tags: only Python %s; only Coq %s" % (sorted(TAGNAME[t] for t in pt - cq["tags"]),
                                                                    sorted(TAGNAME.get(t, t) for t in cq["tags"] - pt)), False))
@@ -166,10 +177,17 @@ def compare(py, cq):
         a, b = set(py["tree"]), set(cq["tree"])
         out.append(("tree summary (addr, path, kind, dims, datatype class, size, layout, attribute names): only Python %s; only Coq %s" % (
             sorted(a - b)[:2], sorted(b - a)[:2]), False))
-    if cq["strict"] != (not comparable):
+    if not py["other"] and cq["strict"] != (not comparable):
         out.append(("strict walk %s although the Python walker reports the deviation tags %s" % (
             "accepts" if cq["strict"] else "rejects", sorted(py["tags"])), False))
     want_ok = py_extents_ok(py["size"], py["eof"], py["extents"])
+    if not cq["disjoint"]:
+        # the file itself is not well-formed according to the Coq walker (theorem C05_extents_ok_complete: some extent leaves the
+        # file or two extents overlap)
+        s = sorted(cq["extents"])
+        bad = [(a, b) for a, b in zip(s, s[1:]) if b[0] < a[1]][:2] or [x for x in s if not (x[0] < x[1] <= py["size"])][:2]
+        out.append(("overlap/bounds: the structures the Coq walker visits are not pairwise disjoint inside the file: %s" % (
+            ["%s[%d,%d)" % (KINDNAME.get(x[2], x[2]), x[0], x[1]) for pair in bad for x in (pair if isinstance(pair[0], tuple) else (pair,))],), True))
     if py["extents"] == cq["extents"] and cq["walk_ok"] != want_ok:
         out.append(("walk_ok = %s but the Python sweep over the same extents says %s" % (cq["walk_ok"], want_ok), False))
     return out
@@ -180,8 +198,11 @@ class WalkTie:
         self.ctx = ctx
         self.rng = random.Random((getattr(ctx, "seed", 0) or 0) ^ 0xC05)     # private: the other ties' samples do not move
         q = ctx.tier == "quick"
-        self.maxsize = 16000 if q else 120000          # bytes per file handed to Coq
-        self.budget = 300000 if q else 6000000         # bytes in total
+        self.small = 16000                             # files up to this size: the bulk of the sample
+        self.maxsize = 150000 if q else 400000         # bytes per file handed to Coq (dense attribute storage starts at about 70 kB)
+        self.budget = 300000 if q else 1500000         # bytes in total, small files   (Coq reads about 10 kB of literals per
+        self.budget_large = 250000 if q else 2500000   # bytes in total, files above `small`      second and process: 12 processes)
+        self.used_large = 0
         self.per_class = 1 if q else 6
         self.kept, self.classes = [], collections.Counter()
         self.used = 0
@@ -202,11 +223,15 @@ class WalkTie:
         extra = self.classes[key] >= self.per_class
         if extra and self.rng.random() > 0.04:
             return
-        if self.used + res["size"] > self.budget:
+        large = res["size"] > self.small
+        if (self.used_large if large else self.used) + res["size"] > (self.budget_large if large else self.budget):
             self.over_budget += 1
             return
         self.classes[key] += 1
-        self.used += res["size"]
+        if large:
+            self.used_large += res["size"]
+        else:
+            self.used += res["size"]
         self.kept.append((case, py_summary(res), bytes(res["data"])))
 
     def finish(self):
@@ -215,7 +240,7 @@ class WalkTie:
         viol = []
         cqs = coq_walk([d for _, _, d in self.kept])
         kinds, tags, notcov, pyonly = collections.Counter(), collections.Counter(), collections.Counter(), collections.Counter()
-        nobj = nacc = nstrict = nok = 0
+        nobj = nacc = nstrict = nok = ndis = 0
         seen = set()
         for (case, py, data), cq in zip(self.kept, cqs):
             for _, _, k in py["extents"]:
@@ -224,14 +249,14 @@ class WalkTie:
             for t in py["tags"]:
                 (tags if t in TAGS and t not in PY_ONLY_TAGS else pyonly)[t] += 1
             nobj += len(py["tree"])
-            nacc += bool(cq["accept"]); nstrict += bool(cq["strict"]); nok += bool(cq["walk_ok"])
+            nacc += bool(cq["accept"]); nstrict += bool(cq["strict"]); nok += bool(cq["walk_ok"]); ndis += bool(cq["disjoint"])
             for what, specv in compare(py, cq):
                 key = what.split(":")[0]
                 if key in seen or len(viol) >= 6:
                     continue
                 seen.add(key)
                 inp = {k: case[k] for k in ("sb", "ops", "datasets") if k in case}
-                d = dict(what="whole-file walk: the Coq walker and the Python walker differ on a file written by the library (%d bytes): %s" % (len(data), what),
+                d = dict(what="whole-file walk (Coq walker Spec/Walk.v vs Python walker) of a file written by the library (%d bytes): %s" % (len(data), what),
                          python=dict(accept=py["accept"], extents=len(py["extents"]), tags=sorted(py["tags"])),
                          coq=dict(accept=cq["accept"], extents=len(cq.get("extents", [])), tags=sorted(TAGNAME.get(t, t) for t in cq.get("tags", []))))
                 if specv:
@@ -239,12 +264,13 @@ class WalkTie:
                 else:
                     d.update(case=inp, nofail=True, correspondence=CORR)
                 viol.append(d)
-        cov = dict(walk_files_offered=self.offered, walk_files_checked=len(self.kept), walk_file_classes=len(self.classes), walk_bytes=self.used,
+        cov = dict(walk_files_offered=self.offered, walk_files_checked=len(self.kept), walk_file_classes=len(self.classes), walk_bytes=self.used + self.used_large,
                    walk_files_too_large=self.too_large, walk_files_over_budget=self.over_budget, walk_files_skipped_unsupported_kinds=self.skipped_kinds,
                    walk_extents_compared=dict(kinds), walk_extents_not_covered=dict(notcov), walk_tags_compared=dict(tags),
-                   walk_tags_python_only=dict(pyonly), walk_objects_compared=nobj, walk_tolerant_accept=nacc, walk_strict_accept=nstrict, walk_ok_true=nok,
+                   walk_tags_python_only=dict(pyonly), walk_objects_compared=nobj, walk_tolerant_accept=nacc, walk_strict_accept=nstrict, walk_ok_true=nok, walk_disjoint_true=ndis,
                    walk_sampling="files of at most %d bytes: %d per distinct (superblock version, set of structure kinds, set of deviation tags) class, "
-                                 "plus 4%% of the others, up to %d bytes in total" % (self.maxsize, self.per_class, self.budget),
+                                 "plus 4%% of the others, up to %d bytes in total for files of at most %d bytes and %d bytes for the larger ones" % (
+                                     self.maxsize, self.per_class, self.budget, self.small, self.budget_large),
                    walk_not_followed="global heap collections (variable-length elements), indirect fractal heap blocks, filtered chunk contents",
                    walk_wall_seconds=round(time.time() - t0, 1))
         return viol, cov
